@@ -20,7 +20,8 @@ RULE = ("Histories (1-25 ops) of add_tag(name) / get_tag_name(id) / unknown-name
         "changes nothing, all other libraries unchanged - checked after EVERY op on EVERY library. Hostile names may be "
         "accepted or rejected; duplicates/'NONE' must be rejected, ordinary fresh identifiers must be accepted. "
         "Non-trivial: >= 1 hostile name, >= 3 accepted tags and a rejected add followed by a successful one. Distinct = "
-        "digest of the case.")
+        "digest of the case."
+        " Added in rounds 19-24: libraries that are instances of a user subclass with a method, a property and a constant of its own (members keep working or the tag is refused); introspection in between (dir, repr, vars); a third of the lookups by id use numpy integers.")
 ASSUMPTIONS = ["tag names are str", "an 'ordinary' name is [A-Z][A-Z0-9_]* other than NONE: it must be accepted",
                "for local libraries an unknown *name* may raise AttributeError (Python default) or TagNotFoundError; "
                "the module-level lookup must raise TagNotFoundError as documented"]
